@@ -13,6 +13,9 @@ def obligations(tier, seed=0):
             for prec in (10, 24):
                 for rnd in ('n', 'f'):
                     obs.append((FM + 'nthroot_bits', dict(n=n, prec=prec, rnd=rnd, _t=600)))
+    for case in ('cosh_large', 'tanh_large', 'exp_tiny', 'cos_sin_tiny', 'tan_tiny', 'atan_tiny', 'sinh_tiny', 'log_pow2'):
+        for rnd in ('n', 'c', 'd'):
+            obs.append(('checks.fam_elem:kernel_bits', dict(case=case, prec=12, rnd=rnd)))
     Z1 = dict(zbc=[4, 9], wbc=[9, 3], zoff=2, woff=-1, off=1)
     for fn in ('mpc_add', 'mpc_sub', 'mpc_add_mpf', 'mpc_sub_mpf'):
         for rnd in ('n', 'c'):
